@@ -228,6 +228,13 @@ def check(ck):
                     return True
                 closes_self = dump(c.func) == "self.close" and not c.args      # (dropping the connection of a failed exchange: C19.1's own remedy)
                 builds_te = any(c is rz_call[r_.id][1] for r_ in rz)            # (the TransportError itself, prepared before the clean-up)
+                if not (own or is_logging_call(c) or closes_self or builds_te or _harmless_helper(c)) and dump(c.func).startswith("self."):
+                    hf2_ = prog.resolve_call(fs, c)
+                    if hasattr(hf2_, "node") and common.is_new_function(hf2_) and \
+                            any(all(a[0] == "call" and a[1][0] == "attr" and a[1][2] == "getresponse" for a in prov.value_alts(prov.origin(g, n_, x_))) for x_ in c.args):
+                        # a new method of the transport that is handed the response and does more than use its accessors
+                        raise AnalysisError("`%s` on the non-200 path: a helper that processes the error reply (whether it can raise instead of "
+                                            "the TransportError is not modelled)" % dump(c)[:50])
                 ck.require(own or is_logging_call(c) or closes_self or builds_te or _harmless_helper(c), "C19.2", "%s: `%s` on the non-200 path" % (q.fn(fs), dump(c)[:40]), "accessor of the own response",
                            "`%s` runs between the status test and `raise TransportError`: if it raises (a body that does not decode, an "
                            "unexpected type), the caller gets that exception instead of the TransportError carrying URL and status"
@@ -413,7 +420,7 @@ def check(ck):
                    "request again instead of letting the error reach the caller" % (cname, bad_b), ci_.node.lineno and "jsonrpclib/jsonrpc.py:%d" % ci_.node.lineno)
 
     # ---- C19.4 constructor chain of the client classes; the Unix transport returns the connection it caches ----------------------
-    from rules import common
+    pass  # (common is imported at module level)
     common.check_base_constructors(ck, "C19.4", classes=[k for k in common.BASE_INITS if k.startswith("jsonrpc.")])
     # TransportError hands its four arguments to ProtocolError.__init__(url, errcode, errmsg, headers) in order
     fte = prog.func("jsonrpc", "TransportError.__init__")
@@ -449,6 +456,10 @@ def check(ck):
                 rn.id in (prov.rd_of(gmc).get(_stores[0].id, {}).get(rn.ast.targets[0].id) or ()) and \
                 gmc.return_exit.id not in reachable_avoiding(gmc, rn.id, set([_stores[0].id]), lambda l: l != "exc"):
             okk = True      # (the returned local is the one stored as the cache entry on the way out: the same object)
+        if not okk and val is not None and isinstance(val, ast.Call) and dump(val.func).startswith("self.") and \
+                hasattr(prog.resolve_call(fmc, val), "node") and common.is_new_function(prog.resolve_call(fmc, val)):
+            raise AnalysisError("UnixTransport.make_connection returns the result of the new method `%s`: whether that is the cached connection is not modelled"
+                                % dump(val.func))
         ck.require(okk, "C19.4", "%s: `%s`" % (q.fn(fmc), q.stmt_text(rn)[:50]), "returns self._connection[1]",
                    "make_connection returns %s, not the connection object it caches in self._connection: every exchange over a Unix socket "
                    "(or every one after the first) has no connection to use" % prov.show(t)[:60], q.loc(fmc, rn))
